@@ -116,9 +116,23 @@ def many_cases(tier):
                            "dimform": "flat", "storage": "dense", "entries": "complex"}
 
 
+def awkward_cases(tier):
+    """Local dimensions whose products are numbers n with (1/n)*n != 1 in floating point (49, 98, 103; cf. seeded change C03-9)."""
+    for rd in ([7, 7], [7, 7, 2], [2, 7, 7], [49, 2], [2, 49], [103, 1]):
+        n = len(rd)
+        for perm in itertools.permutations(range(n)):
+            for inv in (False, True):
+                yield {"kind": "vec1d", "rdims": rd, "cdims": None, "perm": list(perm), "row_only": False, "inv": inv,
+                       "dimform": "flat", "storage": "dense", "entries": "int"}
+                for form in ("flat", "2row"):
+                    yield {"kind": "mat", "rdims": rd, "cdims": rd, "perm": list(perm), "row_only": False, "inv": inv,
+                           "dimform": form, "storage": "dense", "entries": "int"}
+
+
 def index_cases(tier, seed):
     yield from root_cases(tier)
     yield from many_cases(tier)
+    yield from awkward_cases(tier)
     for rd in dims_alphabet(tier):
         n = len(rd)
         R = ti.prod(rd)
